@@ -145,7 +145,12 @@ def check_item(item: dict, tier: str) -> Result:
             run.exchanges = list(log.exchanges) if transport != "wsgi" else list(wsgi_log)
         return run
 
-    for run in sched.explore(body, preemptions=item["p"], env=0, max_executions=item.get("cap", 3000), stats=stats):
+    if "replay_choices" in item:
+        runs = iter([sched.run_schedule(body, list(item["replay_choices"]))])
+    else:
+        runs = sched.explore(body, preemptions=item["p"], env=0, max_executions=item.get("cap", 6000), stats=stats,
+                             shard=tuple(item["shard"]) if item.get("shard") else None)
+    for run in runs:
         res.evaluations += 1
         r = run.outcome
         clock = clocks[-1]
@@ -184,6 +189,14 @@ def check_item(item: dict, tier: str) -> Result:
 
 
 def items(tier: str) -> list[dict]:
+    out: list[dict] = []
+    base = _items(tier)
+    for it in base:
+        out.extend(ee.sharded(it, 4 if it["workers"] > 1 and it["transport"] == "requests" else 1))
+    return out
+
+
+def _items(tier: str) -> list[dict]:
     out = []
     for workers in ((1, 2) if tier == "quick" else (1, 2, 3)):
         out.append({"kind": "rate", "limit": 2, "workers": workers, "max_examples": 3, "p": 1 if tier == "quick" else 2, "transport": "requests"})
